@@ -306,6 +306,7 @@ let storage_handlers = [
   ("tracecheck", (fun _ -> emit "tracecheck ok"));
   ("snapcheck", (fun _ -> emit "snapcheck ok"));
   ("par", (fun _ -> tainted_ref := true; hard_taint := true; emit "*"));
+  ("powercut", (fun _ -> tainted_ref := true; hard_taint := true; emit "*"));
   ("cancel", (fun _ -> tainted_ref := true; hard_taint := true; emit "*"));
   ("fail", (fun _ -> tainted_ref := true; hard_taint := true; emit "fail armed"));  (* the L3 model has no faults: wildcard from here *)
   ("clearfail", (fun _ -> emit "clearfail"));
